@@ -376,7 +376,10 @@ SyncKilledStep ==
                                                      THEN "F5-autosave-before-parity-writers-drained"
                                                      ELSE "synced-stripes-without-valid-parity-after-kill", a.rules>>>> ELSE <<>>)
           /\ afterfix' = FALSE
-          /\ UNCHANGED <<snap, dmg>>
+          \* synced stripes left without valid parity by the kill are reported here (C07); from then on the array counts as
+          \* damaged for the state invariants of C06, which would only repeat the same report at every later step
+          /\ dmg' = (dmg \/ ~c06)
+          /\ UNCHANGED snap
 
 SelOf(a) == [d \in D |-> ToSet(a.sel[d])]
 ExtOf(a) == IF "ext" \in DOMAIN a THEN [stamp |-> ToSet(a.ext.stamp), blocks |-> ToSet(a.ext.blocks), reduced |-> Reduced]
